@@ -9,6 +9,18 @@ BASE_ASSUMPTIONS = [
 ]
 
 CHECKS = {
+    "C03": {
+        "quick": [
+            {"pkg": "v2", "entries": ["VerifC03Hunk"], "params": {"N": 2, "CTX": 2, "RM": 2, "AD": 1}},
+            {"pkg": "v2", "entries": ["VerifC03Sub"], "params": {"N": 2}},
+        ],
+        "thorough": [
+            {"pkg": "v2", "entries": ["VerifC03Hunk"], "params": {"N": 3, "CTX": 2, "RM": 2, "AD": 2}},
+            {"pkg": "v2", "entries": ["VerifC03Sub"], "params": {"N": 3}},
+        ],
+        "covers": ["c03.hunk.root", "c03.hunk.key", "c03.hunk.index", "c03.hunk.key-in-array", "c03.sub.root", "c03.sub.key"],
+        "outside": "arrays longer than N, more than 2 context lines / removes / adds, index -1 (append sentinel), set/multiset and merge hunks (C08, C12)",
+    },
     "C04": {
         "quick": [
             {"pkg": "v2", "entries": ["VerifC04Pair"], "params": {"N": 1}},
@@ -59,7 +71,7 @@ DEFAULT_TECHNIQUE = "bounded symbolic execution of the Go SSA with SMT (z3/cvc5)
 
 _NA_PENDING = "check not built yet in this session (engine exists; harness pending)"
 NOT_APPLICABLE = {
-    "C02": _NA_PENDING, "C03": _NA_PENDING, "C06": _NA_PENDING, "C07": _NA_PENDING,
+    "C02": _NA_PENDING, "C06": _NA_PENDING, "C07": _NA_PENDING,
     "C08": _NA_PENDING, "C09": _NA_PENDING, "C10": _NA_PENDING, "C11": _NA_PENDING, "C12": _NA_PENDING, "C13": _NA_PENDING,
     "C14": _NA_PENDING, "C15": _NA_PENDING, "C17": _NA_PENDING, "C18": _NA_PENDING,
     "C16": ("quantifies over the characters of strings as they pass through yaml.v2's scanner/resolver/emitter and encoding/json "
